@@ -79,6 +79,7 @@ package headsync
 //@ func iface headsync.Client.HeadSync
 //@   modifies nothing
 //@   ensures result1 == nil ==> result0 != nil
+//@   posits [response_is_new_memory] result1 == nil ==> fresh(result0) && (forall k int :: 0 <= k && k < len(result0.Results) ==> fresh(result0.Results[k]))
 //@   ensures result1 == nil ==> (forall k int :: 0 <= k && k < len(result0.Results) ==> result0.Results[k] != nil && (forall j int :: 0 <= j && j < len(result0.Results[k].Elements) ==> result0.Results[k].Elements[j] != nil))
 //@ package encoding/hex
 //@ func DecodeString
@@ -86,3 +87,32 @@ package headsync
 //@ package github.com/anyproto/any-sync/commonspace/headsync
 //@ func (*remote).DiffTypeCheck
 //@   requires r != nil && r.client != nil && diff != nil
+
+// ---------------------------------------------------------------------------------------------
+// C07: the client side of the head-sync wire adapter (same shape as the key-value one): one result per
+// answered range, in order, with the answered count and hash and as many elements as the answer lists;
+// every result's element list is its own freshly allocated array.
+//@ func (*remote).Ranges
+//@   requires r != nil && r.client != nil
+//@   ensures [one_result_per_answer] err == nil ==> len(results) == len(resp.Results)
+//@   ensures [count_and_hash_copied] err == nil ==> (forall i int :: 0 <= i && i < len(results) ==> results[i].Count == resp.Results[i].Count && results[i].Hash == resp.Results[i].Hash)
+//@   ensures [no_element_dropped]    err == nil ==> (forall i int :: 0 <= i && i < len(results) ==> len(results[i].Elements) == len(resp.Results[i].Elements))
+//@   ensures [element_lists_are_separate] err == nil ==> (forall i int, j int :: 0 <= i && i < j && j < len(results) && len(results[j].Elements) > 0 ==> rootof(results[i].Elements) < rootof(results[j].Elements))
+//@   loop 0:
+//@     invariant -1 <= rangeindex && rangeindex < len(ranges) && len(pbRanges) == rangeindex + 1 && rootof(pbRanges) > 0
+//@     invariant len(results) == 0 && r != nil && r.client != nil
+//@   loop 1:
+//@     invariant -1 <= rangeindex && rangeindex < len(resp.Results) && len(results) == rangeindex + 1 && resp != nil
+//@     invariant rootof(results) != rootof(resp) && (forall k int :: 0 <= k && k < len(resp.Results) ==> rootof(resp.Results[k]) != rootof(results))
+//@     invariant resp.Results == atloop(resp.Results) && (forall k int :: 0 <= k && k < len(resp.Results) ==> resp.Results[k].Hash == atloop(resp.Results[k].Hash) && resp.Results[k].Elements == atloop(resp.Results[k].Elements))
+//@     invariant forall i int :: 0 <= i && i < len(results) ==> results[i].Count == resp.Results[i].Count && results[i].Hash == resp.Results[i].Hash && len(results[i].Elements) == len(resp.Results[i].Elements)
+//@     invariant forall i int, j int :: 0 <= i && i < j && j < len(results) && len(results[j].Elements) > 0 ==> rootof(results[i].Elements) < rootof(results[j].Elements)
+//@   loop 2:
+//@     invariant -1 <= rangeindex && rangeindex < len(rr.Elements) && len(elms) == rangeindex + 1 && resp != nil && len(results) < len(resp.Results)
+//@     invariant rr == resp.Results[len(results)]
+//@     invariant rootof(results) != rootof(resp) && (forall k int :: 0 <= k && k < len(resp.Results) ==> rootof(resp.Results[k]) != rootof(results))
+//@     invariant resp.Results == atloop(resp.Results) && (forall k int :: 0 <= k && k < len(resp.Results) ==> resp.Results[k].Hash == atloop(resp.Results[k].Hash) && resp.Results[k].Elements == atloop(resp.Results[k].Elements))
+//@     invariant elms == nil || rootof(elms) > rootof(results) && rootof(elms) > rootof(resp.Results) && rootof(elms) > rootof(resp)
+//@     invariant elms == nil || (forall i int :: 0 <= i && i < len(results) ==> rootof(results[i].Elements) < rootof(elms))
+//@     invariant forall i int :: 0 <= i && i < len(results) ==> results[i].Count == resp.Results[i].Count && results[i].Hash == resp.Results[i].Hash && len(results[i].Elements) == len(resp.Results[i].Elements)
+//@     invariant forall i int, j int :: 0 <= i && i < j && j < len(results) && len(results[j].Elements) > 0 ==> rootof(results[i].Elements) < rootof(results[j].Elements)
